@@ -1355,7 +1355,7 @@ def run_thorough(ctx: Context) -> None:
                     ck.check("C12.S1", ok, f"{_short(g.qualname)}: _callback_listeners(...) resolves to an isolating implementation",
                              f"{ctx.fkey(g)}:callback-site", f"{_short(g.qualname)}: _callback_listeners(...) resolves to {names}, not (only) to an implementation that isolates listeners",
                              g.loc(n))
-        ck.require_min("C12.S1", "_callback_listeners call sites in the package", sites, 8)
+        ck.require_min("C12.S1", "_callback_listeners call sites in the package", sites, 4)
     # S2: every loop in the package that calls the elements of a `.listeners` collection obeys the isolation rule
     if ck.rule("C12.S2", "sweep: every loop over a .listeners collection isolates its listeners"):
         loops = 0
